@@ -6,12 +6,19 @@ EXTENDS QCTree, Json
 (* parent of i: i - 1 with probability about 1/2 (deep chains are needed for commits), else uniform *)
 Pick(i) == LET r == RandomElement(0..(2 * i - 1)) IN IF r >= i THEN i - 1 ELSE r
 GenInit == InitWith([i \in 1..NP |-> Pick(i)])
+AnyP == RandomElement(Props)
+Or(S) == IF S = {} THEN AnyP ELSE RandomElement(S)
+Frontier == {p \in Props : p \notin main /\ Par(p) \in main}       \* proposals whose parent is in the tree
+Deep == {p \in main : View(p) >= View(root) + 4}                     \* nodes whose commit moves the root
 GenNext ==
   /\ Len(hist) < MaxOps
-  /\ \/ \E b \in 1..4 : Insert(RandomElement(1..NP))
-     \/ \E b \in 1..2 : Certify(RandomElement(Ids))
+  /\ \/ \E b \in 1..3 : Insert(AnyP)
+     \/ \E b \in 1..2 : Insert(Or(Frontier))
+     \/ Certify(RandomElement(Ids))
+     \/ \E b \in 1..2 : Certify(Or(main))
      \/ Enforce(RandomElement(Ids))
-     \/ \E b \in 1..2 : Commit(RandomElement(Ids))
+     \/ Commit(RandomElement(Ids))
+     \/ Commit(Or(Deep))
      \/ Advance(RandomElement(Ids))
 GenSpec == GenInit /\ [][GenNext]_vars
 Dump == Len(hist) < MaxOps \/ (JsonSerialize("out/b_" \o ToString(TLCGet("stats").traces) \o ".json", hist) /\ FALSE)
